@@ -1,21 +1,21 @@
 // scratch probes against the real API (no harness model in the loop)
-use automerge::transaction::{CommitOptions, Transactable};
+use automerge::transaction::Transactable;
 use automerge::*;
 
 fn main() {
-    let mut base = AutoCommit::new().with_actor(ActorId::from(vec![0x80u8]));
-    base.put(ROOT, "a", 1).unwrap();
-    base.commit();
-    let mut d = base.fork().with_actor(ActorId::from(vec![0xe0u8]));
-    d.put(ROOT, "x", 1).unwrap();
-    let _ = d.get_changes(&[]); // implicit commit
-    d.put(ROOT, "b", 2).unwrap(); // pending
-    let e = d.empty_change(CommitOptions::default().with_time(5));
-    println!("empty change = {e}");
-    println!("invariants: {:?}", d.verif_check_invariants());
-    let heads = d.get_heads();
-    println!("heads        = {heads:?}");
-    for c in d.get_changes(&[]) {
-        println!("  change {} seq {} ops {} deps {:?}", c.hash(), c.seq(), c.len(), c.deps());
+    let mut d = AutoCommit::new();
+    let l = d.put_object(ROOT, "l", ObjType::List).unwrap();
+    d.insert(&l, 0, 1).unwrap();
+    d.insert(&l, 1, 2).unwrap();
+    let t = d.put_object(ROOT, "t", ObjType::Text).unwrap();
+    d.splice_text(&t, 0, 0, "ab").unwrap();
+    for idx in [usize::MAX, usize::MAX - 1, usize::MAX / 2 + 1, 3] {
+        let mut d2 = d.clone();
+        let r = std::panic::catch_unwind(std::panic::AssertUnwindSafe(|| d2.insert(&l, idx, 9)));
+        println!("insert(list, {idx}) -> {:?}", r.map_err(|_| "PANIC"));
+        let mut d2 = d.clone();
+        let r = std::panic::catch_unwind(std::panic::AssertUnwindSafe(|| d2.splice_text(&t, idx, 0, "z")));
+        println!("splice_text(text, {idx}) -> {:?}", r.map_err(|_| "PANIC"));
+        println!("   text now {:?} list len {}", d2.text(&t), d2.length(&l));
     }
 }
